@@ -398,6 +398,24 @@ func presimplify(asserts []*Term) []*Term {
 	return asserts
 }
 
+// negSkolem returns assertions equivalent (for satisfiability) to the negation
+// of goal, with the goal's leading universal quantifiers replaced by fresh
+// constants. Applications of recursive spec functions in the goal thereby
+// become ground and are unfolded by the generator.
+func negSkolem(goal *Term) []*Term {
+	switch goal.Op {
+	case "=>":
+		return append(flattenAnd(goal.Args[0]), negSkolem(goal.Args[1])...)
+	case "forall":
+		m := map[*Term]*Term{}
+		for _, b := range goal.Bound {
+			m[b] = Fresh("sk."+strings.SplitN(b.Name, "?", 2)[0], b.Sort)
+		}
+		return negSkolem(Subst(goal.Args[0], m))
+	}
+	return []*Term{Not(goal)}
+}
+
 // hasQuant reports whether t contains a quantifier
 func hasQuant(t *Term, memo map[*Term]bool) bool {
 	if v, ok := memo[t]; ok {
@@ -508,7 +526,7 @@ func (p *Program) buildQueryOpt(o *Obligation, unfoldDepth int, filter bool) str
 	if o.ExpectSat {
 		asserts = append(asserts, o.Goal)
 	} else {
-		asserts = append(asserts, Not(o.Goal))
+		asserts = append(asserts, negSkolem(o.Goal)...)
 	}
 	if allXReal(asserts) {
 		asserts = presimplify(asserts)
